@@ -532,22 +532,26 @@ def run_routes_case(f1, pl1, f2, pl2, swap, split):
         return False
     if sorted(key(o) for o in B.query(list(query))) != naive(b_objs, fb):
         return False
-    # "filters attached to a source apply to every one of its answers": all_versions and get too (get answers with the newest stored version
-    # if it passes, else nothing)
+    # "filters attached to a source apply to every one of its answers": all_versions and get too.  get answers with the newest of the versions
+    # that pass (what a query for the id would give, what the filesystem source gives, and the only reading under which a composite is the
+    # union of its members whatever the spread of the versions)
     for id_ in IDS:
         for src, pool, extra in ((A, a_objs, fa), (B, b_objs, fb)):
             mine = [o for o in pool if o["id"] == id_]
             want_all = sorted({key(o) for o in apply_common_filters(mine, extra)})
             if sorted({key(o) for o in src.all_versions(id_)}) != want_all:
                 return False
-            newest = max(mine, key=lambda o: o["modified"]) if mine else None
+            passing = list(apply_common_filters(mine, extra))
+            newest = max(passing, key=lambda o: o["modified"]) if passing else None
             g = src.get(id_)
-            ok_newest = newest is not None and next(apply_common_filters([newest], extra), None) is not None
-            if (g is None) == ok_newest or (g is not None and key(g) != key(newest)):
+            if (g is None) != (newest is None) or (g is not None and key(g) != key(newest)):
                 return False
         want_c = sorted(set(x for pool, extra in ((a_objs, fa + fc), (b_objs, fb + fc)) for x in
                             (key(o) for o in apply_common_filters([o for o in pool if o["id"] == id_], extra))))
         if sorted({key(o) for o in comp.all_versions(id_)}) != want_c:
+            return False
+        gc = comp.get(id_)
+        if (gc is None) != (not want_c) or (gc is not None and key(gc) != max(want_c, key=lambda k: stix2.utils.parse_into_datetime(k[1]))):
             return False
     return True
 
